@@ -644,10 +644,14 @@ func (ex *Exec) jsonUnmarshal(fr *Frame, site ssa.Instruction, d *decodeState, n
 			}
 			ex.forceKind(n, site, -1)
 			if n.kind == JNull {
-				if _, isPtr := t.Underlying().(*types.Pointer); !isPtr {
-					// json calls UnmarshalJSON for null on non-pointer targets too? No: literalStore skips for null unless pointer-implementing; keep no-op
+				if _, isPtr := t.Underlying().(*types.Pointer); isPtr {
+					// null into a pointer sets it to nil without calling the Unmarshaler
+					*target = nilPtr
 					return
 				}
+				// an addressable value of a named non-pointer type whose pointer implements Unmarshaler:
+				// encoding/json calls UnmarshalJSON([]byte("null")) (decode.go indirect: the address it
+				// takes is not settable, so the decodingNull shortcut does not apply)
 			}
 			r := ex.call(fr, site, m, []Value{target, ByteStr{s: &Rope{parts: []interface{}{n}}}}, false)
 			if e := r.(Iface); e.t != nil && d.firstErr == nil {
